@@ -332,6 +332,11 @@ pub struct Found {
     pub reproduced: bool,
 }
 
+/// Set by the C18 check only: an execution in which no thread reaches a scheduling
+/// point for several seconds is reported as a termination failure instead of a
+/// harness problem.
+pub static STUCK_IS_A_VERDICT: std::sync::atomic::AtomicBool = std::sync::atomic::AtomicBool::new(false);
+
 pub type Judge<'a> = dyn Fn(&Program, &Exec) -> Vec<String> + Sync + 'a;
 
 /// Default oracle: linearizability against the LWW model + range clauses + I/O monitor.
@@ -532,11 +537,17 @@ pub fn explore_program(
                     return;
                 }
                 Outcome::Stuck(s) => {
-                    let mut g = machinery.lock().unwrap();
-                    if g.len() < 6 {
-                        g.push(format!("[{}] invisible block: {s}", p.name));
+                    if STUCK_IS_A_VERDICT.load(Ordering::Relaxed) {
+                        // the termination check: threads blocked outside every scheduling point
+                        // (the unchanged tree never does this) are a deadlock of the store's own
+                        msgs.push(format!("C18: deadlock outside every scheduling point — {s}"));
+                    } else {
+                        let mut g = machinery.lock().unwrap();
+                        if g.len() < 6 {
+                            g.push(format!("[{}] invisible block: {s}", p.name));
+                        }
+                        return;
                     }
-                    return;
                 }
             }
             if !msgs.is_empty() {
@@ -548,6 +559,7 @@ pub fn explore_program(
                 let still = match &again.outcome {
                     Outcome::Completed => again.unjoined > 0 || !judge(p, &again).is_empty(),
                     Outcome::Deadlock(_) | Outcome::Horizon(_) => true,
+                    Outcome::Stuck(_) => STUCK_IS_A_VERDICT.load(Ordering::Relaxed),
                     _ => false,
                 };
                 let mut f = found.lock().unwrap();
